@@ -10,7 +10,7 @@ def payload_for(pool, i, kinds=("cmd", "oth", "cmd", "txt", "cmd"), variant=1, c
 
 
 def run_atlas_cli(b, sc, workdir, flags=(), key_by="env", start=None, end=None, out_name="out.log", extra_args=(), prepare=None,
-                  timeout=180, strace=False, encrypt=False):
+                  timeout=180, strace=False, encrypt=False, extra_env=None):
     """One real `anonymongo redact --atlasProjectId ... --atlasClusterName ...` run against a fresh fake endpoint."""
     d = tempfile.mkdtemp(prefix="atl-", dir=workdir)
     tmp = os.path.join(d, "tmp")
@@ -42,6 +42,8 @@ def run_atlas_cli(b, sc, workdir, flags=(), key_by="env", start=None, end=None, 
         for k in ("ATLAS_PUBLIC_KEY", "ATLAS_PRIVATE_KEY", "HTTPS_PROXY", "HTTP_PROXY", "https_proxy", "http_proxy", "SSL_CERT_FILE", "ANONYMONGO_VERSION", "NO_PROXY", "no_proxy"):
             e.pop(k, None)
         e.update(env)
+        if extra_env:
+            e.update(extra_env)
         cmd = [b.cli] + args
         st = os.path.join(d, "strace.log")
         if strace:
